@@ -248,20 +248,7 @@ func (e *Engine) ghostType(g *GhostDecl) types.Type {
 	// result type after indexing all dimensions
 	s := g.Sort
 	for strings.HasPrefix(s, "(Array ") {
-		// strip "(Array X " prefix up to the value sort
-		inner := s[len("(Array ") : len(s)-1]
-		// key sort is first token or parenthesised group
-		d, i := 0, 0
-		for i = 0; i < len(inner); i++ {
-			if inner[i] == '(' {
-				d++
-			} else if inner[i] == ')' {
-				d--
-			} else if inner[i] == ' ' && d == 0 {
-				break
-			}
-		}
-		s = strings.TrimSpace(inner[i:])
+		_, s = arraySorts(s)
 	}
 	switch s {
 	case "Int":
@@ -678,14 +665,69 @@ func (fx *FuncCtx) builtinModel(st *State, key string, callee *ssa.Function, arg
 		}
 		fx.store(st, a, &Val{T: next, Ty: a.Ty})
 		return &Val{Ty: resT}, true
+	case "fmt.Fscanf", "fmt.Fscan", "fmt.Fscanln":
+		// reads from the reader; writes a scanned value through each pointer argument.
+		rd := args[0]
+		g := fx.eng.specs.Ghosts["rd_pos"]
+		hl := fx.eng.specs.Ghosts["hdrlen"]
+		hv := fx.eng.specs.Ghosts["hdrval"]
+		res := fx.freshVal(st, "r_Fscanf", resT)
+		okT := "(= (if_tag " + res.Tup[1].T + ") 0)"
+		fx.assume(st, "(>= "+res.Tup[0].T+" 0)")
+		var pos0 string
+		if g != nil && hl != nil {
+			h := fx.heapGet(st, "G$rd_pos", g.Sort)
+			pos0 = fx.define("fpos", "Int", "(select "+h+" "+rd.T+")")
+			np := fx.declare("fpos1", "Int")
+			hlT := fx.heapGet(st, "G$hdrlen", hl.Sort)
+			fx.assume(st, "(>= "+np+" "+pos0+")")
+			fx.assume(st, imp(okT, "(= "+np+" (+ "+pos0+" (select "+hlT+" "+pos0+")))"))
+			fx.heapSet(st, "G$rd_pos", g.Sort, "(store "+h+" "+rd.T+" "+np+")")
+		}
+		call := site.(ssa.CallInstruction).Common()
+		va := call.Args[len(call.Args)-1]
+		n, ref := fx.varargsOf(st, va)
+		if n < 0 {
+			fx.note("fmt.Fscanf with a non-literal argument list: heap havocked")
+			fx.havocAll(st)
+			return res, true
+		}
+		_ = ref
+		elems := varargElems(va, n)
+		for i := 0; i < n; i++ {
+			var target string
+			if mi, ok := elems[i].(*ssa.MakeInterface); ok {
+				if t, ok := fx.ptrTerm(st, fx.val(st, mi.X)); ok && isInteger(deref(mi.X.Type())) {
+					target = t
+				}
+			}
+			if target == "" {
+				fx.note("fmt.Fscanf target %d is not a pointer to an integer variable: heap havocked", i)
+				fx.havocAll(st)
+				return res, true
+			}
+			cn, ccs := cellComp(fx.u, types.Typ[types.Int])
+			ch := fx.heapGet(st, cn, ccs)
+			nv := fx.declare("scan", "Int")
+			fx.assume(st, fx.wf(st, nv, types.Typ[types.Int], 0))
+			if hv != nil && pos0 != "" && i == 0 {
+				fx.assume(st, imp(okT, "(= "+nv+" (select "+fx.heapGet(st, "G$hdrval", hv.Sort)+" "+pos0+"))"))
+			}
+			fx.heapSet(st, cn, ccs, "(store "+ch+" "+target+" "+nv+")")
+		}
+		return res, true
 	case "(*regexp.Regexp).MatchString":
 		if args[0].HasRe {
 			return &Val{T: fx.define("rm", "Bool", fx.regexMatch(args[0].Re, args[1].T)), Ty: resT}, true
 		}
 	case "strings.HasPrefix":
-		return &Val{T: fx.define("hp", "Bool", fx.hasPrefix(args[0].T, args[1].T)), Ty: resT}, true
+		v := &Val{T: fx.define("hp", "Bool", fx.hasPrefix(args[0].T, args[1].T)), Ty: resT}
+		fx.assume(st, imp(v.T, "(<= "+fx.u.slen(args[1].T)+" "+fx.u.slen(args[0].T)+")"))
+		return v, true
 	case "strings.HasSuffix":
-		return &Val{T: fx.define("hs", "Bool", fx.hasSuffix(args[0].T, args[1].T)), Ty: resT}, true
+		v := &Val{T: fx.define("hs", "Bool", fx.hasSuffix(args[0].T, args[1].T)), Ty: resT}
+		fx.assume(st, imp(v.T, "(<= "+fx.u.slen(args[1].T)+" "+fx.u.slen(args[0].T)+")"))
+		return v, true
 	case "strings.Contains":
 		return &Val{T: fx.define("sc", "Bool", fx.strContains(args[0].T, args[1].T)), Ty: resT}, true
 	case "strings.Index":
@@ -705,4 +747,81 @@ func (fx *FuncCtx) builtinModel(st *State, key string, callee *ssa.Function, arg
 		return v, true
 	}
 	return nil, false
+}
+
+// varargsOf recognises the compiler-built variadic slice (slice of a fresh
+// [N]T array) and returns N and the array reference.
+func (fx *FuncCtx) varargsOf(st *State, v ssa.Value) (int, string) {
+	sl, ok := v.(*ssa.Slice)
+	if !ok {
+		return -1, ""
+	}
+	al, ok := sl.X.(*ssa.Alloc)
+	if !ok {
+		return -1, ""
+	}
+	arr, ok := deref(al.Type()).Underlying().(*types.Array)
+	if !ok {
+		return -1, ""
+	}
+	ref, ok := fx.ptrTerm(st, fx.val(st, al))
+	if !ok {
+		return -1, ""
+	}
+	return int(arr.Len()), ref
+}
+
+// ifaceMethod resolves "pkg.Iface.Method" to the method object.
+func (e *Engine) ifaceMethod(key string) *types.Func {
+	parts := strings.Split(key, ".")
+	if len(parts) != 3 {
+		return nil
+	}
+	p := e.pkgByName(parts[0])
+	if p == nil {
+		return nil
+	}
+	tn, ok := p.Scope().Lookup(parts[1]).(*types.TypeName)
+	if !ok {
+		return nil
+	}
+	it, ok := tn.Type().Underlying().(*types.Interface)
+	if !ok {
+		return nil
+	}
+	for i := 0; i < it.NumMethods(); i++ {
+		if it.Method(i).Name() == parts[2] {
+			return it.Method(i)
+		}
+	}
+	return nil
+}
+
+// varargElems finds the values stored into the compiler-built variadic array.
+func varargElems(v ssa.Value, n int) []ssa.Value {
+	out := make([]ssa.Value, n)
+	sl, ok := v.(*ssa.Slice)
+	if !ok {
+		return out
+	}
+	al, ok := sl.X.(*ssa.Alloc)
+	if !ok {
+		return out
+	}
+	for _, ins := range al.Block().Instrs {
+		st, ok := ins.(*ssa.Store)
+		if !ok {
+			continue
+		}
+		ia, ok := st.Addr.(*ssa.IndexAddr)
+		if !ok || ia.X != al {
+			continue
+		}
+		if c, ok := ia.Index.(*ssa.Const); ok {
+			if i := int(c.Int64()); i >= 0 && i < n {
+				out[i] = st.Val
+			}
+		}
+	}
+	return out
 }
